@@ -5,6 +5,16 @@ ROOT = os.path.dirname(os.path.dirname(os.path.abspath(__file__)))
 
 # id -> (engine, category, technique, level text, level note, design_ref)
 CHECKS = {
+ "C06": ("libmon", "exploration",
+   "runtime monitor driving the uri encoders/decoders exactly as generated code does (real wire trip for headers and cookies), decided by a reference serializer written from the OpenAPI 3.0.3 style table; admission matrix observed from the real parser+generator",
+   "1248 one-parameter specs (4 locations x 8 style spellings x 3 explode spellings x 13 schema shapes) are passed through the real parser and generator; the admitted combinations (and only those) are driven with values bounded-exhaustive over an alphabet holding every delimiter, escape and reserved byte (strings <= 2/3 symbols, arrays and flat objects of such members), random Unicode/byte strings and special parameter names. Oracle per case: the encoder refuses (allowed only for values holding the active delimiter or empty members), or the wire form equals the reference serialization and the decoder recovers the value; cookie escaping is checked as an exact inverse producing only cookie-octets, exhaustively for |s| <= 2 (quick) / 3 (thorough) over all 256 bytes; any panic is a violation.",
+   "Not judged (tallied): header values with leading/trailing blanks or control bytes (not transportable in HTTP), parameter names outside [A-Za-z][A-Za-z0-9_-]*, and the style table's own ambiguities (empty member, empty array, member-less object).",
+   "DESIGN.md §2 C06, Appendix A"),
+ "C08": ("libmon", "exploration",
+   "runtime monitor with two/three independent regex oracles (regexp2 ECMAScript mode, a reference ECMA-262 backtracking matcher written for the harness, optionally V8 via node); alarm only when the deciding oracles agree against ogen",
+   "Patterns bounded-exhaustive by AST size (all of size <= 3, samples of sizes 4-5 in quick; far more in thorough) over literals, escapes (\\d \\w \\s \\b, \\x \\u \\u{} \\c), classes incl. [] [^] [\\b], dot, anchors, groups, alternation, greedy/lazy quantifiers, plus random larger patterns, patterns with look-around/back-references/named groups and every pattern of the corpus; subjects bounded-exhaustive (length <= 3) over ASCII, line terminators, ECMAScript-only whitespace, BMP and astral characters plus AST-derived strings. Checks: match result of ogenregex.Compile(p) equals the oracles', String() returns the source, Match and MatchString agree, constructs RE2 cannot express run on the backtracking engine, no panic.",
+   "Oracle disagreements (notably regexp2's own deviations from ECMA-262 on '.', \\b and surrogate escapes) are counted as inconclusive and never alarm; node is optional and can only move pairs to 'not decided'.",
+   "DESIGN.md §2 C08"),
  "C01": ("servlab", "exploration",
    "runtime monitor on regenerated client+server pairs: recording handler and middleware, wire-level in-process transport, reflection-built values in core and hostile mode, snapshot comparison",
    "Every operation of the regenerated corpus packages (ogen's own feature specs for parameters of every location/style, request bodies of every media type, response codes/patterns/defaults/headers, forms, security; plus examples) is called through the generated client against the generated server with values built by reflection and accepted by the generated Validate(); the handler answers with a built response whose status code is drawn from the set the spec allows for that variant. Oracle: exactly one of delivered (handler and middleware see the sent body and parameters; caller sees the returned variant, status, headers, body) or refused (client error or 4xx, handler not invoked); a refused core-domain value or a value that arrives changed is a violation. Thorough crosses feature configurations (validation, request options, otel, reentrant security).",
